@@ -444,8 +444,26 @@ impl Check for C13 {
             _ => {
                 let cfg = GenCfg { max_defs: 1, ..GenCfg::default() };
                 let (env, roots) = gen_env_and_roots(s, &cfg, 1);
-                let d1 = roots[0].clone();
-                let d2 = crate::den::mutate_type(&d1, s, &cfg, env.defs.len());
+                let mut d1 = roots[0].clone();
+                let mut d2 = crate::den::mutate_type(&d1, s, &cfg, env.defs.len());
+                // now and then the one edit is the optionality of an index-signature value
+                // (Record<string, T> vs Partial<Record<string, T>>), at the root or under a property
+                if s.chance(1, 8) {
+                    let t = match s.below(3) {
+                        0 => D::Num,
+                        1 => D::Str,
+                        _ => D::obj(vec![("a", D::Str, false)]),
+                    };
+                    let rec = |v: D| D::Object { props: vec![], index: Some(Box::new(v)) };
+                    let (a, b) = (rec(t.clone()), rec(D::Union(vec![t, D::Undefined])));
+                    if s.chance(1, 2) {
+                        d1 = a;
+                        d2 = b;
+                    } else {
+                        d1 = D::obj(vec![("k", a, false), ("n", D::Num, false)]);
+                        d2 = D::obj(vec![("k", b, false), ("n", D::Num, false)]);
+                    }
+                }
                 // utility spellings matter here: Partial<...>, optional mapped members and Record are compiled to
                 // wrappers of their own (optional-field, index signature) whose presence must show in the digest
                 let rc = RenderCfg { feats: vec![Feat::Utility], eagerness: 4 };
